@@ -59,29 +59,29 @@ func wsState(st ref.EndState) (s ws.State) {
 }
 
 // checkHeader is the oracle for one (header, state) pair; "" or the violation.
+// broken is the reference's set of broken rules, state the ws.State handed in.
 // named is the rule the returned error names (-1 when accepted).
-func checkHeader(h ref.Header, st ref.EndState) (msg string, broken ref.RuleSet, named int) {
-	broken = ref.BrokenRules(h, st)
+func checkHeader(h ref.Header, broken ref.RuleSet, state ws.State) (msg string, named int) {
 	wh := ws.Header{Fin: h.Fin, Rsv: h.Rsv, OpCode: ws.OpCode(h.Op), Masked: h.Masked, Mask: h.Mask, Length: h.Length}
-	err := ws.CheckHeader(wh, wsState(st))
+	err := ws.CheckHeader(wh, state)
 	if err == nil {
 		if !broken.Empty() {
-			return fmt.Sprintf("CheckHeader accepted a header that breaks %v", broken), broken, -1
+			return fmt.Sprintf("CheckHeader accepted a header that breaks %v", broken), -1
 		}
-		return "", broken, -1
+		return "", -1
 	}
 	if broken.Empty() {
-		return fmt.Sprintf("CheckHeader rejected (%v) a header that breaks no rule", err), broken, -1
+		return fmt.Sprintf("CheckHeader rejected (%v) a header that breaks no rule", err), -1
 	}
 	for _, re := range ruleErr {
 		if err == re.err {
 			if !broken.Has(re.rule) {
-				return fmt.Sprintf("CheckHeader reported %q (rule %v), which is not broken; broken: %v", err, re.rule, broken), broken, int(re.rule)
+				return fmt.Sprintf("CheckHeader reported %q (rule %v), which is not broken; broken: %v", err, re.rule, broken), int(re.rule)
 			}
-			return "", broken, int(re.rule)
+			return "", int(re.rule)
 		}
 	}
-	return fmt.Sprintf("CheckHeader returned %q (%T), which is none of the exported header-rule errors; broken: %v", err, err, broken), broken, -1
+	return fmt.Sprintf("CheckHeader returned %q (%T), which is none of the exported header-rule errors; broken: %v", err, err, broken), -1
 }
 
 type hdrCase struct {
@@ -108,23 +108,44 @@ func TestHeaderGrid(t *testing.T) {
 				for _, masked := range []bool{false, true} {
 					for _, key := range keys {
 						for _, l := range gridLengths {
-							for _, side := range []ref.Side{ref.SideNone, ref.SideServer, ref.SideClient} {
+							for sideIdx, sideName := range []string{"none", "server", "client", "server+client"} {
 								for _, ext := range []bool{false, true} {
 									for _, frag := range []bool{false, true} {
 										h := ref.Header{Fin: fin, Rsv: rsv, Op: op, Masked: masked, Mask: key, Length: l}
-										st := ref.EndState{Side: side, Extended: ext, Fragmented: frag}
-										n++
-										msg, broken, named := checkHeader(h, st)
-										c := hdrCase{h.String(), side.String(), ext, frag, broken.String()}
-										if msg != "" {
-											hx.Failf(t, c, "%s", msg)
-											return
+										var broken ref.RuleSet
+										var state ws.State
+										if sideIdx < 3 {
+											st := ref.EndState{Side: ref.Side(sideIdx), Extended: ext, Fragmented: frag}
+											broken, state = ref.BrokenRules(h, st), wsState(st)
+										} else {
+											// Both side flags set: the endpoint "is a server" and "is a
+											// client", so the server's and the client's mask rule both apply.
+											sv := ref.EndState{Side: ref.SideServer, Extended: ext, Fragmented: frag}
+											cl := ref.EndState{Side: ref.SideClient, Extended: ext, Fragmented: frag}
+											broken = ref.BrokenRules(h, sv) | ref.BrokenRules(h, cl)
+											state = wsState(sv) | wsState(cl)
+										}
+										c := hdrCase{h.String(), sideName, ext, frag, broken.String()}
+										named := -1
+										// State bits that name no endpoint property cannot change the verdict.
+										for _, undefinedBits := range []ws.State{0, 0x10, 0xF0} {
+											n++
+											var msg string
+											msg, named = checkHeader(h, broken, state|undefinedBits)
+											if msg != "" {
+												if undefinedBits != 0 {
+													msg += fmt.Sprintf(" (state carries the undefined bits %#x)", uint8(undefinedBits))
+												}
+												hx.Failf(t, c, "%s", msg)
+												return
+											}
 										}
 										cnt := broken.Count()
-										if cnt == 1 || (cnt == 0 && (side != ref.SideNone || ext || frag)) {
-											hx.NonTrivial(hx.Hash("hdr", fin, rsv, op, masked, l, int(side), ext, frag), func() interface{} { return c })
+										if cnt == 1 || (cnt == 0 && (sideIdx != 0 || ext || frag)) {
+											hx.NonTrivial(hx.Hash("hdr", fin, rsv, op, masked, l, sideIdx, ext, frag), func() interface{} { return c })
 										}
 										if key == keys[0] {
+											hx.Class("hdr/side=" + sideName)
 											hx.Class(fmt.Sprintf("hdr/rules-broken=%d", min(cnt, 3)))
 											if named >= 0 {
 												hx.Class("hdr/error-names=" + ref.Rule(named).String())
@@ -143,7 +164,7 @@ func TestHeaderGrid(t *testing.T) {
 		}
 	}
 	hx.EvalN(n)
-	hx.Part("CheckHeader: fin x rsv(8) x opcode(16) x masked x key field(2) x length{0,1,124,125,126,127,65535,65536,2^31,2^63-1} x side{none,server,client} x extended x fragmented", int64(n), true)
+	hx.Part("CheckHeader: fin x rsv(8) x opcode(16) x masked x key field(2) x length{0,1,124,125,126,127,65535,65536,2^31,2^63-1} x side{none,server,client,server+client} x extended x fragmented x undefined state bits{0,0x10,0xF0}", int64(n), true)
 }
 
 // ---------------------------------------------------------------------------
